@@ -60,6 +60,17 @@ THEOREMS = [
     "BeyondVerif.C08.cw_points_own_propagator_matches",
     "BeyondVerif.C08W.cw_sibling_points_interleaved",
     "BeyondVerif.C08W.interleaved_shared_propagator_retargeted",
+    "BeyondVerif.C08.src_walk_items",
+    "BeyondVerif.C08.src_walk_once_exhausts",
+    "BeyondVerif.C08.src_walkN_again",
+    "BeyondVerif.C08.src_walkN_once_lost",
+    "BeyondVerif.C08.dates_walks_match",
+    "BeyondVerif.C08.iter_dates_source",
+    "BeyondVerif.C08.ephem_iter_dates_source",
+    "BeyondVerif.C08.numerical_iter_dates_source",
+    "BeyondVerif.C08W.second_walk_loses_single_use_dates",
+    "BeyondVerif.C08.ephem_cursor_shared_matches",
+    "BeyondVerif.C08W.ephem_own_points_shared_cursor",
     "BeyondVerif.C08.ident_table_matches",
     "BeyondVerif.C08.order_matches",
     "BeyondVerif.C08.step_test_matches",
@@ -98,7 +109,7 @@ LEVEL_TEXT = ("Lean theorems over an integer-microsecond model of Date.range, An
               "dates within the range for sorted points, ephem_iter_own_sorted / _backward_sorted), by "
               "induction over the loops; explicit lists are yielded as given, the empty list yields nothing (iter_dates_list, numerical_iter_dates_list, "
               "ephem_iter_dates_list), a DateRange object passed as dates= yields exactly the dates of the object in all three families, both directions, inclusive or "
-              "not (iter_dates_range, ephem_iter_dates_range, numerical_iter_dates_range_forward/backward, rangeRun_*); error kinds of the argument handling; for EVERY history of propagate/iter calls and in-place modifications of the orbits on "
+              "not (iter_dates_range, ephem_iter_dates_range, numerical_iter_dates_range_forward/backward, rangeRun_*); the object passed as dates= is modelled as a SOURCE (Src: walked again and again - list, tuple, array, deque, any class with __iter__ or the sequence protocol - or single-use - generator expression, iter(list), reversed, map, filter, chain, the library's own Ephem.dates): the iteration sites walk it exactly once (Generated.datesWalks, counted from the AST of AnalyticalPropagator._iter, Ephem.iter, KeplerNum._iter on every run, dates_walks_match), so for EVERY kind of source the iterator yields exactly the dates the object hands out (iter_dates_source, ephem_iter_dates_source, numerical_iter_dates_source) and leaves a single-use one exhausted; a second walk would find a single-use source empty (src_walkN_once_lost, Witness second_walk_loses_single_use_dates); error kinds of the argument handling; for EVERY history of propagate/iter calls and in-place modifications of the orbits on "
               "shared propagator and listener objects (their coordinates; for Sgp4 also their drag terms), every propagator kind, the result of the next call equals "
               "that on fresh objects holding the current orbit values (propagate_pure, by an invariant over histories; propagate_pure_not_sgp4 without any hypothesis; "
               "for Sgp4 the model's orbit value must be what Sgp4._state compares - coordinates, date, form, frame, bstar, ndot, ndotdot since 3d341d9 - "
@@ -120,6 +131,8 @@ TRUSTED = [
     "harness/props/C08.py extract: reads Ephem.DEFAULT_ORDER and, per propagator class, whether the `orbit` setter stores the object or a copy (AST) -> Generated/IterConst.lean",
     "correspondence: real Orbit / propagator / Ephem / Listener objects vs the compiled Lean model on identical keyword arguments and call histories; exact comparison of yielded dates, end kind (done / ValueError / AttributeError / cap), bound orbit, number of re-bindings, whose trajectory the states lie on, number of events, Listener.prev",
     "CPython generator semantics (a generator body does not run before the first next()) are modelled by the `consume = 0` case",
+    "harness/props/C08.py dates_walks: counts in the AST of the three iteration sites the walks of the caller's `dates` object (for-loops, comprehensions, consuming builtins, hand-overs; up to `dates = list(dates)`) -> Generated.datesWalks; an unknown use of the name is an extraction error",
+    "CPython iterator protocol: iter(x) of a list / tuple / array / deque / DateRange / class with __iter__ is a fresh cursor, iter(g) of a generator or iterator object is g itself (Model Src.again / Src.once)",
 ]
 ASSUMPTIONS = [
     "Model/Iter.lean is hand-written; it is tied to base.py, keplernum.py, sgp4.py, ephem.py, orbit.py, date.py, listeners.py by the exact correspondence run only",
@@ -140,14 +153,15 @@ NOT_COVERED = [
     "a failing Sgp4 binding (Tle.from_orbit raises): since c604b3e the setter binds only after success; binding failures are not in the model",
     "inputs outside the quantifier, modelled and in the correspondence but without theorem: a forward range with a negative step (analytical: ValueError at once, iter_incoherent; Ephem and KeplerNum: dates until the span is left, then ValueError); step = 0 (analytical: ValueError; Ephem / KeplerNum forward: never terminates, both sides stop at the cap; KeplerNum backward: ValueError); KeplerNum.iter(start=None): AttributeError",
     "'the objects handed out do not alias what the receiver is made of' (mutating a yielded / returned state in place must not change the orbit, the points of an ephemeris, or what the same call returns next) has no counterpart in the model (states are abstract values): oracle only, over every branch of Ephem.iter (dates on / between nodes, DateRange both directions, step forward / backward on and off nodes, own points forward / backward / all), Ephem.propagate / interpolate on and between nodes, and iter / propagate of every propagator incl. KeplerNum with each method (families <kind>-alias-<branch>-*)",
+    "laziness of the walk (how many dates have been pulled from a single-use source when the consumer stops early; an unbounded generator as dates=) and one single-use source shared by two iterations are not in the model and not in the oracle: KeplerNum needs min / max of the dates and takes list(dates) at once, the other sites pull one date per state",
     "event search (_bisect) is C10's; listeners enter here only through clear_listeners / Listener.prev / the number of events found per call",
 ]
-OPEN = ["interleave_pure assumes that no two orbit objects involved hold the same propagator object; false only for orbits the user made share a propagator (NOT_COVERED); the interleaved model has no theorem for Ephem generators (independent by construction: oracle only)",
+OPEN = ["interleave_pure assumes that no two orbit objects involved hold the same propagator object; false only for orbits the user made share a propagator (NOT_COVERED); the interleaved model has no theorem for Ephem generators: those that interpolate (step or dates given) and the backward ones share nothing; those over the OWN points (no step, `for orb in self`) and plain loops over the ephemeris share the one cursor Ephem.__iter__ keeps on the object (Generated.ephemIterSharesCursor, ephem_cursor_shared_matches; Model curRun) and disturb each other - a genuine failure of the current code: Witness ephem_own_points_shared_cursor, open finding C08-ephem-own-points-shared-cursor, proposed_fixes/C08-j-ephem-iter-shared-cursor.diff; oracle scenarios *own-points*",
         "numerical_iter_dates_forward_default_partial: with the DEFAULT step (absent / None / propagator.step itself) the forward contract is proved for fixed-step methods only (all rs = h). The excluded case - adaptive rkf54 / dopri54 - is a genuine failure of the current code (Witness numerical_default_step_raw_points, known finding C08-num-adaptive-default-step, proposed_fixes/C08-i-keplernum-adaptive-default-step.diff)",
         "Ephem.iter with start and/or stop ABSENT (defaults: the ends of the tabulated span) has no theorem of its own (modelled, in the correspondence); the clamping theorems (strict=False) are stated for a stop given as a date, not as a timedelta (which the code resolves from the unclamped start)",
         "an exclusive BACKWARD DateRange is covered by iter_dates_range / ephem_iter_dates_range / numerical_iter_dates_range_backward (the iterator yields exactly what the object yields, rangeRun) but rangeRun itself is characterised as a grid only for inclusive ranges and exclusive forward ranges"]
 RULE = ("correspondence: per propagator kind (sgp4, kepler, j2, none, num, cw, ephem) random keyword combinations of iter (start absent/None/before/at/after epoch, "
-        "stop date/timedelta/absent, step absent/None/positive/negative/zero, dates list (empty, unordered, repeated) / DateRange (both directions), strict, backward "
+        "stop date/timedelta/absent, step absent/None/positive/negative/zero, dates list (empty, unordered, repeated) carried by every kind of iterable (list, tuple, ndarray, deque, class with __iter__, sequence class; single-use: generator expression, iter(list), reversed, map, filter, chain, Ephem.dates of another ephemeris) / DateRange (both directions), strict, backward "
         "ranges inside and outside an ephemeris span) and random histories of <= 8 propagate/iter calls on two "
         "orbits (every element different) sharing one propagator and two listeners that fire on a date pattern (full, partial, zero consumption; start/stop/step, explicit "
         "dates and DateRange forms; in-place modifications of the orbits between calls: their elements, for Sgp4 also their drag term B* and - oracle only - their name / catalogue number / counters), the trace compared being dates, end kind, bound orbit, number of re-bindings, "
@@ -159,7 +173,7 @@ RULE = ("correspondence: per propagator kind (sgp4, kepler, j2, none, num, cw, e
         "oracle: generators consumed side by side on real objects vs alone on fresh ones (zip of sibling points, of orbits owning their propagators, two iterators of one orbit, calls between creation and consumption, "
         "zip(range, iteration over the range), two iterations over one DateRange object, nested loop over the range, resume after list(range)), every kind, both directions; "
         "the contract list start + k*step on the real API for all 7 kinds both directions (KeplerNum: every method and step form, directed cases on every seed), aliasing of the returned objects, yielded state == direct propagate from fresh objects, "
-        "explicit lists, histories vs fresh objects (bitwise), receiver snapshots; first of all, on every seed, the directed histories of the findings this property "
+        "explicit dates in all 13 iterable forms through Orbit/Ephem .iter, .ephemeris and .ephem on all 7 kinds (directed on every seed + random), histories vs fresh objects (bitwise), receiver snapshots; first of all, on every seed, the directed histories of the findings this property "
         "has had (propagate / modify / propagate, two orbits on one propagator, listeners re-used over explicit dates)")
 U = 125_000            # grid of the generated dates, in microseconds (0.125 s: exact in the float seconds of Date)
 FLIP = 700_000_000     # the correspondence's test listener changes sign every FLIP microseconds (Drv/C08.lean: flipPeriod)
@@ -201,6 +215,64 @@ def td(us):
 
 def us_of(date, e):
     return round((date - e).total_seconds() * 1e6)
+
+
+# what the caller may pass as `dates=`: objects every iter() of which is a fresh cursor ...
+AGAIN_FORMS = ["list", "tuple", "ndarray", "deque", "iterable-class", "sequence-class"]
+# ... and single-use iterators (iter(x) is x): a second walk of the object finds nothing
+ONCE_FORMS = ["genexpr", "iter", "reversed", "map", "filter", "chain", "ephem-dates"]
+DATE_FORMS = AGAIN_FORMS + ONCE_FORMS
+
+
+def make_dates(ds, form):
+    """the list of Date objects `ds` as an iterable of the given form (ephem-dates: the `dates` property of an ephemeris
+    tabulated at those dates - an Ephem sorts its points, so `ds` has to be sorted)"""
+    ds = list(ds)
+    if form == "list":
+        return ds
+    if form == "tuple":
+        return tuple(ds)
+    if form == "ndarray":
+        import numpy as np
+        arr = np.empty(len(ds), dtype=object)
+        for i, d in enumerate(ds):
+            arr[i] = d
+        return arr
+    if form == "deque":
+        import collections
+        return collections.deque(ds)
+    if form == "iterable-class":
+        class Schedule:
+            def __iter__(self):
+                return iter(list(ds))
+        return Schedule()
+    if form == "sequence-class":
+        class Seq:
+            def __len__(self):
+                return len(ds)
+
+            def __getitem__(self, i):
+                return ds[i]
+        return Seq()
+    if form == "genexpr":
+        return (d for d in ds)
+    if form == "iter":
+        return iter(ds)
+    if form == "reversed":
+        return reversed(ds[::-1])
+    if form == "map":
+        return map(lambda d: d, ds)
+    if form == "filter":
+        return filter(lambda d: True, ds)
+    if form == "chain":
+        import itertools
+        return itertools.chain(ds[:len(ds) // 2], ds[len(ds) // 2:])
+    if form == "ephem-dates":
+        from beyond.orbits import Orbit, Ephem
+        if ds != sorted(ds):
+            raise ValueError("ephem-dates: the dates of an ephemeris are sorted")
+        return Ephem([Orbit([7.0e6, 0.01, 0.9, 1.0, 2.0, 3.0], d, "keplerian", "EME2000", None) for d in ds]).dates
+    raise ValueError(form)
 
 
 class World:
@@ -327,7 +399,7 @@ class World:
             if a.get("stepobj") == "same":
                 kw["step"] = self.prop.step                                # the propagator's own step object
         if "dates" in a:
-            kw["dates"] = [self.date(x) for x in a["dates"]]
+            kw["dates"] = make_dates([self.date(x) for x in a["dates"]], a.get("dform", "list"))
         if "range" in a:
             s0, s1, st, incl = a["range"]
             kw["dates"] = Date.range(self.date(s0), self.date(s1), td(st), inclusive=bool(incl))
@@ -337,13 +409,17 @@ class World:
             kw["listeners"] = [self.listeners[i] for i in a["listeners"]]
         return kw
 
-    def run_iter(self, idx, a, limit=CAP, events=False):
-        """-> (list of yielded items, terminator) ; item = date in microseconds (events are skipped unless events=True)"""
+    def run_iter(self, idx, a, limit=CAP, events=False, via="iter"):
+        """-> (list of yielded items, terminator) ; item = date in microseconds (events are skipped unless events=True);
+        via: the public entry point - iter / ephemeris (generators) or ephem (the points of the Ephem it returns)"""
         items = []
         orbs = []
         self.n_events = 0
         try:
-            it = self.orbits[idx].iter(**self.kwargs(a))
+            if via == "ephem":
+                it = iter(list(self.orbits[idx].ephem(**self.kwargs(a))))
+            else:
+                it = getattr(self.orbits[idx], via)(**self.kwargs(a))
             n = 0
             while True:
                 if n >= limit:
@@ -503,8 +579,79 @@ def date_range_iter_is_fresh_generator():
     raise RuntimeError("class DateRange not found in beyond/dates/date.py")
 
 
+WALK_SITES = [("analytical", ("propagators", "base.py"), "AnalyticalPropagator", "_iter"), ("ephem", ("orbits", "ephem.py"), "Ephem", "iter"),
+              ("num", ("propagators", "keplernum.py"), "KeplerNum", "_iter")]
+WALKERS = {"list", "tuple", "sorted", "min", "max", "set", "frozenset", "sum", "any", "all", "enumerate", "zip", "iter", "next", "reversed",
+           "map", "filter", "deque", "array", "asarray", "chain"}
+
+
+def dates_walks(path, cls, fn):
+    """how many times the function walks the object the CALLER passed as `dates`: every `for ... in dates` (statement or
+    comprehension), every call of a consuming builtin on it (`list(dates)`, `min(dates)` ...) and every hand-over of the object to
+    another call (`x.iter(dates=dates)`: the callee walks it), counted up to the statement `dates = list(dates)` / `tuple(...)` /
+    `sorted(...)` after which the name is a list of the function's own. Tests (`is None`, `not dates`, `hasattr`) and attribute
+    reads do not walk. Any other use is an error (the model has no such case)."""
+    src = open(os.path.join(core.REPO, "beyond", *path)).read()
+    for node in ast.walk(ast.parse(src)):
+        if isinstance(node, ast.ClassDef) and node.name == cls:
+            for f in node.body:
+                if isinstance(f, ast.FunctionDef) and f.name == fn:
+                    parent = {}
+                    for x in ast.walk(f):
+                        for c in ast.iter_child_nodes(x):
+                            parent[c] = x
+                    uses, own_from = [], None
+                    for x in ast.walk(f):
+                        if not (isinstance(x, ast.Name) and x.id == "dates" and isinstance(x.ctx, ast.Load)):
+                            continue
+                        p = parent[x]
+                        if isinstance(p, (ast.For, ast.comprehension)) and p.iter is x:
+                            uses.append((x.lineno, "walk"))
+                        elif isinstance(p, ast.Call) and x in p.args and isinstance(p.func, (ast.Name, ast.Attribute)) and \
+                                (p.func.id if isinstance(p.func, ast.Name) else p.func.attr) in WALKERS:
+                            uses.append((x.lineno, "walk"))
+                            g = parent.get(p)
+                            if (isinstance(g, ast.Assign) and len(g.targets) == 1 and getattr(g.targets[0], "id", None) == "dates"
+                                    and isinstance(p.func, ast.Name) and p.func.id in ("list", "tuple", "sorted")):
+                                own_from = x.lineno if own_from is None else min(own_from, x.lineno)
+                        elif isinstance(p, ast.Call) and isinstance(p.func, ast.Name) and p.func.id in ("hasattr", "isinstance", "getattr"):
+                            pass
+                        elif isinstance(p, (ast.Compare, ast.Attribute)) or (isinstance(p, ast.UnaryOp) and isinstance(p.op, ast.Not)):
+                            pass
+                        elif isinstance(p, ast.keyword) or (isinstance(p, ast.Call) and x in p.args):
+                            uses.append((x.lineno, "handed-over"))
+                        elif isinstance(p, (ast.If, ast.While, ast.BoolOp, ast.IfExp)):
+                            pass                                   # truth test
+                        else:
+                            raise RuntimeError(f"{cls}.{fn}: a use of `dates` the model does not know (line {x.lineno}: {type(p).__name__})")
+                    return sum(1 for ln, _ in uses if own_from is None or ln <= own_from)
+    raise RuntimeError(f"{cls}.{fn} not found in beyond/{'/'.join(path)}")
+
+
+def ephem_iter_shares_cursor():
+    """Ephem.__iter__ returns the ephemeris itself (`return self`, the position kept in an attribute of the object: True) or
+    a cursor of the consumer's own (a generator function, or `return iter(...)`: False); anything else is an error"""
+    src = open(os.path.join(core.REPO, "beyond", "orbits", "ephem.py")).read()
+    for node in ast.walk(ast.parse(src)):
+        if isinstance(node, ast.ClassDef) and node.name == "Ephem":
+            meths = {st.name: st for st in node.body if isinstance(st, ast.FunctionDef)}
+            it = meths.get("__iter__")
+            if it is None:
+                raise RuntimeError("Ephem.__iter__ not found")
+            if any(isinstance(x, (ast.Yield, ast.YieldFrom)) for x in ast.walk(it)):
+                return False
+            rets = [x.value for x in ast.walk(it) if isinstance(x, ast.Return)]
+            if len(rets) == 1 and isinstance(rets[0], ast.Name) and rets[0].id == "self" and "__next__" in meths:
+                return True
+            if len(rets) == 1 and isinstance(rets[0], ast.Call) and getattr(rets[0].func, "id", None) == "iter":
+                return False
+            raise RuntimeError("Ephem.__iter__ has a shape the model does not know")
+    raise RuntimeError("class Ephem not found in beyond/orbits/ephem.py")
+
+
 def extract(ctx):
     order = order_of_source()
+    walks = [(site, dates_walks(path, cls, fn)) for site, path, cls, fn in WALK_SITES]
     ident = step_test_is_identity()
     own = num_points_own_propagator()
     fresh = date_range_iter_is_fresh_generator()
@@ -523,6 +670,10 @@ def extract(ctx):
            f"def cwPointsOwnPropagator : Bool := {'true' if cw_own else 'false'}\n"
            "/-- `DateRange.__iter__` is a generator function and the class has no `__next__` -/\n"
            f"def dateRangeIterIsFreshGenerator : Bool := {'true' if fresh else 'false'}\n"
+           "/-- `Ephem.__iter__` returns the ephemeris itself: one cursor (`self._i`) on the object for all its consumers -/\n"
+           f"def ephemIterSharesCursor : Bool := {'true' if ephem_iter_shares_cursor() else 'false'}\n"
+           "/-- how many times the iteration site walks the object the caller passed as `dates=` (a single-use iterator survives one) -/\n"
+           "def datesWalks : List (String × Nat) := [" + ", ".join(f'("{k}", {v})' for k, v in walks) + "]\n"
            "end BeyondVerif.Generated\n")
     ch = core.write_if_changed(os.path.join(core.LEAN, "BeyondVerif", "Generated", "IterConst.lean"), txt)
     return ["Generated/IterConst.lean"] if ch else []
@@ -542,13 +693,22 @@ def enc_args(a):
     else:
         stop = "-"
     if "dates" in a:
-        dates = "L:" + ",".join(str(x) for x in a["dates"])
+        dates = ("G:" if a.get("dform", "list") in ONCE_FORMS else "L:") + ",".join(str(x) for x in a["dates"])
     elif "range" in a:
         dates = "R:" + ",".join(str(int(x)) for x in a["range"])
     else:
         dates = "-"
     step = "S" if a.get("stepobj") == "same" else oo("step")
     return f"start={oo('start')};stop={stop};step={step};dates={dates};strict={0 if a.get('strict') is False else 1}"
+
+
+def gen_form(rng, a, p=0.6):
+    """what kind of object carries the explicit dates of `a` (an ephemeris has its dates sorted)"""
+    if rng.random() < p:
+        a["dform"] = rng.choice(DATE_FORMS if rng.random() < 0.3 else ONCE_FORMS)
+        if a["dform"] == "ephem-dates":
+            a["dates"] = sorted(a["dates"])
+    return a
 
 
 def gen_args(rng, kind, h, npts):
@@ -560,6 +720,7 @@ def gen_args(rng, kind, h, npts):
         n = rng.choice([0, 1, 2, 4])
         lo, hi = (0, total // U) if kind == "ephem" and rng.random() < 0.8 else (-total // U, 2 * total // U)
         a["dates"] = [rng.randrange(lo, hi + 1) * U for _ in range(n)]
+        gen_form(rng, a)
         return a
     if r < 0.22:
         s0 = rng.randrange(-3 * h // U, 6 * h // U) * U if kind != "ephem" else rng.randrange(0, total // U + 1) * U
@@ -772,7 +933,7 @@ def gen_inter_ops(rng, kind, h, n_obj):
             if rng.random() < 0.75:
                 a = {"stopdelta": rng.choice([1, 1, -1]) * rng.choice([2 * h, 3 * h + U, 5 * h]), "step": rng.choice([h, h // 2 + U, 2 * h])}
             else:
-                a = {"dates": [rng.randrange(-4 * h // U, 4 * h // U) * U for _ in range(rng.choice([1, 2, 4]))]}
+                a = gen_form(rng, {"dates": [rng.randrange(-4 * h // U, 4 * h // U) * U for _ in range(rng.choice([1, 2, 4]))]})
             ops.append({"op": "create", "orb": rng.randrange(n_obj), "args": a})
             n_it += 1
         elif r < 0.85:
@@ -1090,7 +1251,7 @@ def gen_call(rng, kind, h, npts, n_orb, modify=True, ids=False):
             sg = rng.choice([1, 1, -1])
             a = {"range": [s0, s0 + sg * rng.choice([2, 7, 9, 12]) * h, sg * rng.choice([h, h // 2, 3 * h // 4]), rng.random() < 0.7], "listeners": ls}
         else:
-            a = {"dates": [rng.randrange(lo, hi + 1) * U for _ in range(rng.choice([1, 2, 3, 5]))], "listeners": ls}
+            a = gen_form(rng, {"dates": [rng.randrange(lo, hi + 1) * U for _ in range(rng.choice([1, 2, 3, 5]))], "listeners": ls})
         return {"op": "iter", "orb": idx, "args": a, "consume": rng.choice([CAP, CAP, 2])}
     if rng.random() < 0.45:
         if kind == "ephem":
@@ -1189,22 +1350,33 @@ def _short(r):
     return [x if not isinstance(x, (bytes, tuple)) else (x.hex()[:32] if isinstance(x, bytes) else [y if not isinstance(y, bytes) else y.hex()[:16] for y in x[:12]]) for x in r]
 
 
-def check_dates_list(out, w, dates, npts, order):
-    a = {"dates": dates}
-    got, fin, _ = w.run_iter(0, a)
-    out.count(key=(w.kind, tuple(dates)), nontrivial=len(dates) > 1, kind="dates-" + w.kind, n=min(len(dates), 5))
+def check_dates_list(out, w, dates, npts, order, form="list", via="iter"):
+    """iter(dates=<object>) yields exactly the dates the object hands out, whatever kind of iterable it is (`form`), through
+    every public entry point (`via`: Orbit / Ephem .iter, .ephemeris, .ephem - the last one returns an Ephem, whose points are
+    sorted by date)"""
+    a = {"dates": dates, "dform": form}
+    got, fin, _ = w.run_iter(0, a, via=via)
+    exp = sorted(dates) if via == "ephem" else list(dates)
+    out.count(key=(w.kind, tuple(dates), form, via), nontrivial=len(dates) > 1, kind="dates-" + w.kind, n=min(len(dates), 5),
+              form=form, via=via)
+    inp = {"check": "dates", "kind": w.kind, "h": w.h, "npts": npts, "dates": dates, "form": form, "via": via}
     if w.kind == "ephem" and npts < order and dates:
         if (got, fin) != ([], "value-error"):
             out.fail("ephem-iter-few-points-not-refused", "Ephem with fewer points than the interpolation order: interpolation did not raise ValueError",
-                     {"check": "dates", "kind": w.kind, "h": w.h, "npts": npts, "dates": dates}, observed={"dates": got[:40], "end": fin})
+                     inp, observed={"dates": got[:40], "end": fin})
         return
-    if fin != "done" or got != dates:
-        sym = ("raises-" + fin) if fin not in ("done", "fuel") else ("extra-dates" if len(got) > len(dates) else "wrong-dates")
+    if fin != "done" or got != exp:
+        sym = ("raises-" + fin) if fin not in ("done", "fuel") else ("extra-dates" if len(got) > len(exp) else (
+            "yields-nothing" if exp and not got else ("stops-early" if exp[:len(got)] == got else "wrong-dates")))
         cls = "empty" if not dates else "nonempty"
         site = "analytical" if (w.kind in ANALYTICAL and not dates) else w.kind     # AnalyticalPropagator._iter is one call site
-        fam = "num-iter-dates-list-raises-attribute-error" if (w.kind == "num" and sym == "raises-attribute-error") else f"{site}-iter-dates-list-{cls}-{sym}"
-        out.fail(fam, f"{w.kind}: iter(dates=[...]) does not yield exactly the listed dates",
-                 {"check": "dates", "kind": w.kind, "h": w.h, "npts": npts, "dates": dates}, observed={"dates": got[:40], "end": fin}, expected={"dates": dates[:40], "end": "done"})
+        if form == "list" and via == "iter":
+            fam = "num-iter-dates-list-raises-attribute-error" if (w.kind == "num" and sym == "raises-attribute-error") else f"{site}-iter-dates-list-{cls}-{sym}"
+        else:
+            # the family names the site, the entry point and the CLASS of the object (walked again and again / single-use)
+            fam = f"{site}-{via}-dates-{'single-use' if form in ONCE_FORMS else 'iterable'}-{cls}-{sym}"
+        out.fail(fam, f"{w.kind}: {via}(dates=<{form}>) does not yield exactly the dates of the object",
+                 inp, observed={"dates": got[:40], "end": fin}, expected={"dates": exp[:40], "end": "done"})
 
 
 def directed_histories(kind, h, npts, ids=False):
@@ -1309,7 +1481,10 @@ def alias_calls(kind, h, npts):
 
 
 INTERLEAVINGS = ["zip-sibling-points", "zip-own-propagators", "two-iterators-one-orbit", "call-between-create-and-consume",
-                 "zip-range-with-iteration", "zip-two-iterations-one-range", "nested-loop-over-range", "resume-after-list-of-range"]
+                 "zip-range-with-iteration", "zip-two-iterations-one-range", "nested-loop-over-range", "resume-after-list-of-range",
+                 # an ephemeris iterated over its OWN points (no step): Ephem.iter walks `for orb in self`
+                 "zip-own-points-two-iterators", "own-points-plain-loop-while-suspended", "own-points-nested-plain-loops",
+                 "own-points-propagate-while-suspended"]
 
 
 def check_interleave(out, kind, h, npts, scenario, backward=False):
@@ -1390,6 +1565,34 @@ def check_interleave(out, kind, h, npts, scenario, backward=False):
                 inner = list(rg)
             got = (outer, inner)
             exp = (list(fo.iter(dates=frg)), list(frg))
+        elif "own-points" in scenario:
+            if kind != "ephem":
+                return
+            b1 = {"start": (inside - h if backward else h), "stop": (inside - 7 * h if backward else 7 * h)}
+            b2 = {"start": (inside - 2 * h if backward else 2 * h), "stop": (h if backward else inside - h)}
+            if scenario == "zip-own-points-two-iterators":
+                got = alternately(o.iter(**w.kwargs(b1)), o.iter(**w.kwargs(b2)))
+                exp = (list(fo.iter(**f.kwargs(b1))), list(fo.iter(**f.kwargs(b2))))
+            elif scenario == "own-points-plain-loop-while-suspended":
+                g = o.iter(**w.kwargs(b1))
+                first = [next(g), next(g)]
+                whole = [x for x in o]                       # a plain loop over the ephemeris itself
+                got = (first + list(g), whole)
+                exp = (list(fo.iter(**f.kwargs(b1))), [x for x in fo])
+            elif scenario == "own-points-nested-plain-loops":
+                outer, inner = [], []
+                for x in o:
+                    outer.append(x)
+                    inner = [y for y in o]
+                got = (outer, inner)
+                exp = ([x for x in fo], [x for x in fo])
+            else:   # own-points-propagate-while-suspended
+                g = o.iter(**w.kwargs(b1))
+                first = [next(g)]
+                o.propagate(w.date(3 * h + U))
+                o.interpolate(w.date(2 * h))
+                got = (first + list(g), [])
+                exp = (list(fo.iter(**f.kwargs(b1))), [])
         else:   # resume-after-list-of-range
             g = o.iter(dates=rg)
             first = [next(g), next(g)]
@@ -1405,7 +1608,9 @@ def check_interleave(out, kind, h, npts, scenario, backward=False):
     g0, g1 = key(got[0]), key(got[1])
     if (g0, g1) != (e0, e1):
         what = "dates" if ([x[0] if x[0] != "date" else x[1] for x in g0 + g1] != [x[0] if x[0] != "date" else x[1] for x in e0 + e1]) else "states"
-        out.fail(f"{kind}-interleave-{scenario}-{what}", "generators consumed side by side (or suspended across other calls) do not return what each returns when consumed alone",
+        # the iterations over an ephemeris' own points are one call site (`for orb in self` -> Ephem.__iter__): one family
+        fam = f"{kind}-interleave-own-points-{what}" if "own-points" in scenario else f"{kind}-interleave-{scenario}-{what}"
+        out.fail(fam, "generators consumed side by side (or suspended across other calls) do not return what each returns when consumed alone",
                  inp, observed=[[x[0] if x[0] != "date" else x[1] for x in g0][:12], [x[0] if x[0] != "date" else x[1] for x in g1][:12]],
                  expected=[[x[0] if x[0] != "date" else x[1] for x in e0][:12], [x[0] if x[0] != "date" else x[1] for x in e1][:12]])
 
@@ -1449,6 +1654,18 @@ def _oracle(ctx, widened):
         for scenario in INTERLEAVINGS:
             for backward in (False, True):
                 check_interleave(out, kind, 60 * 8 * U, 12, scenario, backward)
+    # every kind of object that can carry explicit dates, through every entry point, on every seed
+    for kind in KINDS:
+        h = 60 * 8 * U
+        w = World(kind, h=h, npts=12)
+        for form in DATE_FORMS:
+            for via in ("iter", "ephemeris", "ephem"):
+                for ds in ([h // 2 + U, 2 * h, 3 * h + 3 * U, 7 * h], [5 * h, h + U, 5 * h, 2 * h], []):
+                    if form == "ephem-dates":
+                        ds = sorted(ds)
+                    if kind not in ("ephem", "num") and ds:
+                        ds = [d - 3 * h for d in ds]          # before and after the epoch
+                    check_dates_list(out, w, ds, 12, order, form=form, via=via)
     for method in ("euler", "rk4", "rkf54", "dopri54"):
         for a in directed_iters("num", 60 * 8 * U):
             check_iter(out, World("num", h=60 * 8 * U, method=method), a, order, 12, states=False)
@@ -1496,7 +1713,9 @@ def _oracle(ctx, widened):
                 ds = [rng.randrange(0, hi + 1) * U for _ in range(n)]
             else:
                 ds = [rng.randrange(-hi, hi + 1) * U for _ in range(n)]
-            check_dates_list(out, w, ds, npts, order)
+            form = rng.choice(DATE_FORMS) if i % 2 else "list"
+            check_dates_list(out, w, sorted(ds) if form == "ephem-dates" else ds, npts, order, form=form,
+                             via=rng.choice(["iter", "iter", "ephemeris", "ephem"]) if i % 2 else "iter")
         # call histories on shared objects
         for i in range((600 if big else 100)):
             h = 60 * 8 * U
@@ -1516,7 +1735,7 @@ def replay(f):
     if i.get("check") == "iter":
         check_iter(out, World(i["kind"], h=i["h"], npts=i["npts"], method=i.get("method", "rk4")), i["args"], order, i["npts"])
     elif i.get("check") == "dates":
-        check_dates_list(out, World(i["kind"], h=i["h"], npts=i["npts"]), i["dates"], i["npts"], order)
+        check_dates_list(out, World(i["kind"], h=i["h"], npts=i["npts"]), i["dates"], i["npts"], order, form=i.get("form", "list"), via=i.get("via", "iter"))
     elif i.get("check") == "history":
         check_history(out, i["kind"], i["h"], i["npts"], i["calls"])
     elif i.get("check") == "interleave":
